@@ -33,6 +33,8 @@ type vfEvent struct {
 	Desc  string `json:"desc,omitempty"`
 	SErr  string `json:"streamerror,omitempty"`
 	Seq   int64  `json:"seq"`
+	// Inbound: the handled-stanza count carried by the event's stream-management state
+	Inbound uint `json:"inbound,omitempty"`
 }
 
 type vfObs struct {
@@ -47,7 +49,7 @@ type vfObs struct {
 
 func (o *vfObs) onEvent(e Event) error {
 	o.mu.Lock()
-	o.events = append(o.events, vfEvent{State: e.State.state, SMId: e.SMState.Id, Desc: e.Description, SErr: e.StreamError, Seq: vfTick()})
+	o.events = append(o.events, vfEvent{State: e.State.state, SMId: e.SMState.Id, Desc: e.Description, SErr: e.StreamError, Seq: vfTick(), Inbound: e.SMState.Inbound})
 	o.mu.Unlock()
 	return nil
 }
